@@ -13,4 +13,10 @@ META = {
         "level_text": "Generated histories of updates in all eight filter shapes are applied to the real stores (wire reply/notify into a remote feature; UpdateData/SetData on a local feature) and DataCopy is compared after every step with an independent ~80-line reference fold; uniqueness, ordering and idempotence are checked in the same step. Thorough covers all 83 Updater types. Exploration over small identifier domains; not a proof.",
         "level_note": "Trusted: the reference fold, rapid, JSON canonicalisation of items. Outside the asserted domain (DESIGN §4 C02 NA): multi-match selectors, selectors on non-key/struct fields, duplicate identifiers in one update, unsorted filter-less replaces, key-less partial merges.",
     },
+    "C18": {
+        "technique": "exhaustive (function x shape) grid with rapid-generated values and a JSON round-trip oracle; native go fuzzing of decode/encode stability in the thorough tier",
+        "design_ref": "DESIGN.md §4 C18",
+        "level_text": "Every registered function is exercised in every command shape through ReadCmdType / ReplyCmdType / NotifyOrWriteCmdType and through the feature API on the wire; after encode+decode the function, payload type, partial/delete filters and the generated selectors and elements must come back deep-equal (nothing silently dropped). The grid is complete; values per cell are sampled (5 quick / 300 thorough). All CmdType/FilterType member types round-trip with reflectively generated values.",
+        "level_note": "Trusted: reflect-based equivalence (nil==empty list; relative periods +-1.2 s), the JSON naming convention as the independent association of selectors/elements to functions. cmd.Function's content is not asserted (the statement does not fix it).",
+    },
 }
